@@ -33,6 +33,11 @@ Definition bq : ascii := "`"%char.
 Definition field_num (f : str) : option Z :=
   let t := trim_space f in if str_eqb t [] then Some 0%Z else atoi t.
 
+(* strings.TrimRight(x, " "): only the column's trailing SPACE padding goes (byte-wise: the cutset is ASCII); blanks in
+   front of the name, and trailing tabs or carriage returns, are part of the recorded name (repair 215f837) *)
+Fixpoint drop_sp (x : str) : str := match x with c :: r => if ceq c sp then drop_sp r else x | [] => [] end.
+Definition trim_right_sp (x : str) : str := rev (drop_sp (rev x)).
+
 (* parseArEntry on the 60 bytes at offset off *)
 Definition parse_entry (off : nat) (line : str) : option entry :=
   if negb (List.length line =? 60) then None
@@ -41,7 +46,7 @@ Definition parse_entry (off : nat) (line : str) : option entry :=
     match field_num (sub line 16 12), field_num (sub line 28 6), field_num (sub line 34 6), field_num (sub line 48 10) with
     | Some ts, Some uid, Some gid, Some size =>
         if (size <? 0)%Z then None
-        else Some {| e_name := trim_suffix [slash] (trim_space (sub line 0 16));
+        else Some {| e_name := trim_suffix [slash] (trim_right_sp (sub line 0 16));
                      e_ts := ts; e_uid := uid; e_gid := gid;
                      e_mode := trim_space (sub line 40 8); e_size := size; e_hdr := off |}
     | _, _, _, _ => None
